@@ -1,4 +1,5 @@
 import Psa.Webhook
+import Psa.ReviewProofs
 import Psa.ExpectedFacts
 /-! # C16 — the webhook answers each review with its own UID and rejects malformed ones
 `Psa/Webhook.lean`: an interleaving machine for HandleValidate (each in-flight request takes atomic steps: obtain the pointer
@@ -51,6 +52,52 @@ theorem C16_wellformed (maxSize size : Nat) (h : size < maxSize) :
     classify maxSize false size b!"application/json" true true true = 200 := by
   simp [classify]; omega
 
+/-! ## Review documents (Psa/Review.lean): every JSON-object body, as a list of top-level members -/
+open PSA.Review in
+/-- **A body is answered 200 exactly when it is a well-formed v1 AdmissionReview with a request**: what kind detection reads
+    as its apiVersion (last string among the members spelled `apiVersion` in any ASCII case; `null` leaves it) is absent/empty,
+    `/`, `admission.k8s.io/v1` or `admission.k8s.io/`; what it reads as its kind is absent/empty or `AdmissionReview`; no
+    `request` / `response` member has the wrong JSON type; and the last member spelled exactly `request` is an object. For all
+    documents: any number of members, repeated keys, any order. -/
+theorem C16_review_200_iff (doc : Top) :
+    status doc = 200 ↔
+      (∃ av k, interpretField b!"apiVersion" doc [] = some av ∧ interpretField b!"kind" doc [] = some k ∧
+        apiVersionOK av ∧ kindOK k) ∧ typeError doc = false ∧ hasRequest doc = true := status_200_iff doc
+
+open PSA.Review in
+/-- … and every other body gets 400: an HTTP error status, never an allow -/
+theorem C16_review_else_400 (doc : Top) : status doc = 200 ∨ status doc = 400 := status_cases doc
+
+open PSA.Review in
+/-- **Reviews without a request**: no member spelled exactly `request` holding an object — absent, null, misspelled
+    (`Request`), or of another type — means 400, whatever else the body contains -/
+theorem C16_review_needs_request (doc : Top) (h : ∀ m ∈ doc, m.1 = b!"request" → ∀ t, m.2 ≠ .obj t) : status doc = 400 :=
+  no_request_400 doc h
+
+open PSA.Review in
+/-- **Non-v1 reviews**: a body whose detected apiVersion is anything but the four accepted spellings (v1beta1, another
+    group, ...) or whose detected kind is another kind is answered 400 -/
+theorem C16_review_non_v1 (doc : Top) (av k : Str) (ha : interpretField b!"apiVersion" doc [] = some av)
+    (hk : interpretField b!"kind" doc [] = some k) (h : ¬ apiVersionOK av ∨ ¬ kindOK k) : status doc = 400 := by
+  rcases status_cases doc with h2 | h4
+  · exfalso
+    obtain ⟨⟨av', k', ha', hk', hav, hkk⟩, _⟩ := (status_200_iff doc).mp h2
+    rw [ha] at ha'; rw [hk] at hk'
+    cases ha'; cases hk'
+    rcases h with h | h
+    · exact h hav
+    · exact h hkk
+  · exact h4
+
+open PSA.Review in
+/-- non-vacuity: the two sides of the line, computed — a review with upper-case `KIND`, a trailing-slash apiVersion and a
+    request is accepted; the same with `v1beta1`, with the request misspelled, or with the request overwritten by null is not -/
+example : status [(b!"KIND", .str b!"AdmissionReview"), (b!"apiVersion", .str b!"admission.k8s.io/"), (b!"request", .obj true)] = 200 ∧
+    status [(b!"apiVersion", .str b!"admission.k8s.io/v1beta1"), (b!"kind", .str b!"AdmissionReview"), (b!"request", .obj true)] = 400 ∧
+    status [(b!"Request", .obj true)] = 400 ∧
+    status [(b!"request", .obj true), (b!"request", .null)] = 400 ∧
+    status [(b!"request", .null), (b!"request", .obj true)] = 200 := by decide
+
 /-- tie obligation (F7): the size limit is 3 MiB -/
 theorem C16_limit : Generated.maxRequestSize = 3 * 1024 * 1024 := by decide
 
@@ -62,4 +109,8 @@ theorem C16_limit : Generated.maxRequestSize = 3 * 1024 * 1024 := by decide
 #print axioms C16_malformed
 #print axioms C16_wellformed
 #print axioms C16_limit
+#print axioms C16_review_200_iff
+#print axioms C16_review_else_400
+#print axioms C16_review_needs_request
+#print axioms C16_review_non_v1
 end PSA.Props
